@@ -101,12 +101,10 @@ pub fn pom_url(maven: &str, g: &str, a: &str, v: &str) -> String {
 }
 
 // ---------- Gallina ----------
-/// a string as `(ds 0x1hhhhhh…)`: one numeral per string (see coq/C19/Run.v)
+/// a string as a list of code points; printable ASCII as the constants k32..k126 of coq/C19/Run.v
 pub fn gs(s: &str) -> String {
-	let mut out = String::from("(ds 0x1");
-	for c in s.chars() { out += &format!("{:06x}", c as u32); }
-	out.push(')');
-	out
+	let v: Vec<String> = s.chars().map(|c| { let n = c as u32; if (32..127).contains(&n) { format!("k{n}") } else { n.to_string() } }).collect();
+	format!("[{}]", v.join(";"))
 }
 pub fn gos(s: &Option<String>) -> String { gopt(s.as_ref().map(|x| gs(x))) }
 fn g_dep(d: &ADep, mgmt: bool) -> String {
